@@ -34,14 +34,50 @@ def gen_cases(tier, seed):
         n = len(lines)
         cuts = list(range(1, n)) if thorough and n <= 24 else sorted(r.sample(range(1, n), min(8, n - 1)))
         for c in cuts:
-            shape = r.choice(["one", "two", "nested2", "nested3", "tail", "head"])
+            shape = r.choice(["one", "two", "nested2", "nested3", "tail", "head", "twice", "subdir", "dotdot", "dotslash", "dotfile", "absolute"])
             yield {"id": "split/%d/%d/%s" % (k, c, shape), "lines": lines, "cut": c, "shape": shape}
     for sh in ("self", "cycle2", "cycle3", "missing", "missing-nested"):
         yield {"id": "bad/" + sh, "shape": sh, "lines": None, "cut": 0}
 
 
-def layout(lines, cut, shape, r):
-    """-> {filename: text}; main.asm is the including file"""
+SNIPPETS = [[" NOP\n", " LDA #1\n"], [" FCB 1,2,3\n"], [" PSHS A,B\n", " CLRA\n", " PULS A,B\n"], [" RMB 5\n", " FDB $1234\n"], [" LDX #$1234\n", " LEAX 1,X\n", " STX $4000\n"]]
+
+
+def layout(lines, cut, shape, r, root=None):
+    """-> ({filename: text}, spliced reference lines, main file name, cwd relative to the temp dir); main is the including file"""
+    files = _layout(lines, cut, shape if shape in ("one", "two", "nested2", "nested3", "tail", "head") else "one", r)
+    ref = lines
+    main, cwd = "main.asm", "."
+    if shape == "twice":
+        n = len(lines)
+        a, b = cut, min(n, cut + max(1, (n - cut) // 2))
+        snip = r.choice(SNIPPETS)
+        files = {"main.asm": lines[:a] + [" INCLUDE snip.asm\n"] + lines[a:b] + [" INCLUDE snip.asm\n"] + lines[b:], "snip.asm": snip}
+        ref = lines[:a] + snip + lines[a:b] + snip + lines[b:]
+    elif shape in ("subdir", "dotdot", "dotslash", "dotfile", "absolute"):
+        newname = {"subdir": "lib/part1.asm", "dotdot": "../part1.asm", "dotslash": "./part1.asm", "dotfile": ".part1.asm",
+                   "absolute": os.path.join(root, "abs", "part1.asm")}[shape]
+        files = {k: [l.replace("part1.asm", newname) for l in v] for k, v in files.items()}
+        body = files.pop("part1.asm")
+        if shape == "subdir":
+            files["lib/part1.asm"] = body
+        elif shape == "dotdot":
+            files = {"sub/" + k: v for k, v in files.items()}
+            files["part1.asm"] = body
+            files["sub/part1.asm"] = [" FCB $EE,$EE,$EE,$EE,$EE\n"]      # a decoy with the same name in the working directory
+            main, cwd = "main.asm", "sub"
+        elif shape == "dotslash":
+            files["part1.asm"] = body
+        elif shape == "dotfile":
+            files[".part1.asm"] = body
+            files["part1.asm"] = [" FCB $EE,$EE,$EE\n"]                   # decoy
+        else:
+            files["abs/part1.asm"] = body
+            files["part1.asm"] = [" FCB $EE,$EE,$EE\n"]                   # decoy
+    return files, ref, main, cwd
+
+
+def _layout(lines, cut, shape, r):
     n = len(lines)
     a, b = cut, min(n, cut + max(1, (n - cut) // 2))
     if shape == "one":
@@ -94,15 +130,18 @@ def run_case(case, ctx):
         if case["lines"] is None:
             return run_bad(case, ctx, d)
         r = rng(ctx.seed, "C19", case["id"])
-        lines = case["lines"]
+        files, lines, main, sub = layout(case["lines"], case["cut"], case["shape"], r, root=d)
         ref = asmmon.assemble(lines, keep_program=False)
         if ref.outcome != "ok":
             ctx.outcome("base-not-accepted")
             return
-        files = layout(lines, case["cut"], case["shape"], r)
         for nme, t in files.items():
+            os.makedirs(os.path.dirname(os.path.join(d, nme)) or d, exist_ok=True)
             open(os.path.join(d, nme), "w").write("".join(t))
-        open(os.path.join(d, "whole.asm"), "w").write("".join(lines))
+        if sub != ".":
+            os.chdir(os.path.join(d, sub))
+        wd = os.getcwd()
+        open(os.path.join(wd, "whole.asm"), "w").write("".join(lines))
         o = asmmon.assemble(open("main.asm").readlines(), keep_program=False)
         ctx.mon("M1.asm-post", 2)
         wit = {"show": "%s -> %s" % (case["id"], o.brief()[:80]), "files": {k: "".join(v)[:600] for k, v in files.items()}}
@@ -124,8 +163,8 @@ def run_case(case, ctx):
             ctx.outcome("differs")
             return
         # CLI witness
-        r1 = fsmon.run_cli("assembler.py", ["main.asm", "--print", "--symbols"], d)
-        r2 = fsmon.run_cli("assembler.py", ["whole.asm", "--print", "--symbols"], d)
+        r1 = fsmon.run_cli("assembler.py", ["main.asm", "--print", "--symbols"], wd)
+        r2 = fsmon.run_cli("assembler.py", ["whole.asm", "--print", "--symbols"], wd)
         ctx.mon("M6.cli-runs", 2)
         if r1.code != r2.code or r1.out != r2.out or r1.exc:
             ctx.violation("include", form, "CLI-OUTPUT-DIFFERS", dict(wit, split_out=r1.out[-300:], spliced_out=r2.out[-300:]))
@@ -144,7 +183,7 @@ def run_case(case, ctx):
 def gate(stats):
     out = []
     c = stats["cells"]
-    for sh in ("one", "two", "nested2", "nested3", "tail", "head"):
+    for sh in ("one", "two", "nested2", "nested3", "tail", "head", "twice", "subdir", "dotdot"):
         if "split." + sh not in c:
             out.append("no accepted split of shape " + sh)
     for sh in ("self", "cycle2", "missing"):
